@@ -37,7 +37,8 @@ func maintSig(what, store string, typ common.TokenType, l layer) string {
 
 // detokObs is one observed detokenize call on a token whose record state (disabled / enabled back) the monitor knows.
 type detokObs struct {
-	store string
+	store string // store kind (counters, sets)
+	cfg   string // store configuration as named in signatures (kind, plus a non-default access-time granularity)
 	l     layer
 	tok   tval
 	val   tval // the original the issuer tokenized
@@ -62,7 +63,7 @@ func judgeDisabledDetok(r *ev.Run, o detokObs, via string, detail func(extra map
 			detail(map[string]interface{}{"stack": o.pan.stack, "token_state": "disabled"}))
 		return false
 	case o.err != nil:
-		r.Violation(maintSig("disabled-token-detokenize-error", o.store, typ, o.l),
+		r.Violation(maintSig("disabled-token-detokenize-error", o.cfg, typ, o.l),
 			detail(map[string]interface{}{"what": "detokenizing a token that maintenance disabled must answer like an unknown token (the token itself, no error); the call failed", "error": o.err.Error(), "error_class": errClass(o.err)}))
 		return false
 	case o.prob != "":
@@ -77,11 +78,11 @@ func judgeDisabledDetok(r *ev.Run, o detokObs, via string, detail func(extra map
 		}
 		return true
 	case o.known && o.out.equal(o.val):
-		r.Violation(maintSig("disabled-token-detokenize-returned-original", o.store, typ, o.l),
+		r.Violation(maintSig("disabled-token-detokenize-returned-original", o.cfg, typ, o.l),
 			detail(map[string]interface{}{"what": "a disabled token must be treated as not there: the reader got the original instead of the token itself", "result": o.out.full()}))
 		return false
 	}
-	r.Violation(maintSig("disabled-token-detokenize-returned-other", o.store, typ, o.l),
+	r.Violation(maintSig("disabled-token-detokenize-returned-other", o.cfg, typ, o.l),
 		detail(map[string]interface{}{"what": "detokenizing a disabled token returned neither the token itself nor anything the token ever stood for", "result": o.out.full()}))
 	return false
 }
@@ -97,7 +98,7 @@ func judgeReenabledDetok(r *ev.Run, o detokObs, via string, detail func(extra ma
 			detail(map[string]interface{}{"stack": o.pan.stack, "token_state": "enabled back"}))
 		return false
 	case o.err != nil:
-		r.Violation(maintSig("reenabled-token-detokenize-error", o.store, typ, o.l),
+		r.Violation(maintSig("reenabled-token-detokenize-error", o.cfg, typ, o.l),
 			detail(map[string]interface{}{"what": "the owner's detokenize of a token that was disabled and enabled back failed", "error": o.err.Error(), "error_class": errClass(o.err)}))
 		return false
 	case o.prob != "":
@@ -109,7 +110,7 @@ func judgeReenabledDetok(r *ev.Run, o detokObs, via string, detail func(extra ma
 		r.SetAdd("reenabled_token_original_store_type_entry", o.store+"/"+typeName(typ)+"/"+detokSig[o.l])
 		return true
 	}
-	r.Violation(maintSig("reenabled-token-not-restored", o.store, typ, o.l),
+	r.Violation(maintSig("reenabled-token-not-restored", o.cfg, typ, o.l),
 		detail(map[string]interface{}{"what": "after the token was enabled back its owner must get the original again", "result": o.out.full(), "came_back_as_the_token_itself": o.out.equal(o.tok)}))
 	return false
 }
@@ -185,7 +186,7 @@ func disabledMatrix(r *ev.Run, kind storeKind, ks ksrig.FullKeyStore) {
 		}
 	}
 	call := func(t dmTok, l layer) detokObs {
-		o := detokObs{store: store, l: l, tok: t.tok, val: t.val, known: true}
+		o := detokObs{store: store, cfg: store, l: l, tok: t.tok, val: t.val, known: true}
 		o.out, o.prob, o.err, o.pan = guarded(func() (tval, string, error) { return g.detokenize(l, t.ctx, t.tok) })
 		return o
 	}
